@@ -7,12 +7,20 @@
    of Load / Store / LoadOrStore / LoadAndDelete / Delete calls on one Map
    ([lin_frag]: instance 0, no Range, no keyed-mutex wrapper), every schedule
    at the granularity of individual atomic / mutex operations. No bound.
-   Not covered: Range (clause 5 of the design) and nested calls. *)
-From Typ Require Import SyncMap.Model SyncMap.Inv SyncMap.SetAtomic Lib.Lin SyncMap.Linearizable.
+   Second half (SyncMap/LinRange.v): the same for programs in which any
+   goroutine may also call Range (counting / stopping callback, [rfrag]) at
+   any time: the history of the five point operations - the invocation and
+   response events of the Range calls removed, [pt_hist] - is linearizable,
+   whatever the Ranges do meanwhile (a Range promotes the dirty map, i.e.
+   rewrites read / dirty under the mutex, while the other calls run). Range
+   itself is not an atomic snapshot and is specified by Props/C04range.v.
+   Not covered: callbacks that call back into the Map (nested calls). *)
+From Typ Require Import SyncMap.Model SyncMap.Inv SyncMap.SetAtomic Lib.Lin Lib.LinHW SyncMap.Linearizable SyncMap.RangeConc SyncMap.LinRange SyncMap.SeqHist SyncMap.Solo.
+From Typ Require SyncMap.SeqProofs.
 
-Theorem C04_linearizable : forall progs sched,
+Theorem C04_linearizable : forall z progs sched,
   Forall (Forall lin_frag) progs ->
-  linearizable map_spec ∅ (map_hist (run_schedule (init_config 1 progs) sched)).
+  linearizable map_spec ∅ (map_hist (run_schedule (init_config_z [z] progs) sched)).
 Proof. exact map_linearizable. Qed.
 Print Assumptions C04_linearizable.
 
@@ -20,9 +28,9 @@ Print Assumptions C04_linearizable.
    it ends in is the contents of the Map ([abs_lookup] of the final state: no
    stored value is lost or resurrected), and once all goroutines have finished
    every call of the history has been linearized (P t = None for all t). *)
-Theorem C04_linearizable_contents : forall progs sched,
+Theorem C04_linearizable_contents : forall z progs sched,
   Forall (Forall lin_frag) progs ->
-  let c := run_schedule (init_config 1 progs) sched in
+  let c := run_schedule (init_config_z [z] progs) sched in
   exists (a : gmap Z Z) (P : nat -> option (call * option res)),
     poss map_spec ∅ (rev (map_hist c)) a P /\
     (forall k, a !! k = abs_lookup (st0 c) k) /\
@@ -50,4 +58,160 @@ Example C04lin_stale_load :
      HInv 1 (CLoad 0 7); HRes 1 (ROpt None); HInv 1 (CStore 0 1 30); HRes 1 RUnit;
      HRes 0 (ROpt None)]%Z /\
   abs_lookup (st0 c) 1%Z = Some 30%Z /\ finished c = true /\ Forall (Forall lin_frag) lin_progs.
+Proof. vm_compute. repeat split; repeat constructor. Qed.
+
+(* ------------------------------------------------------------------ *)
+(* with Range calls running concurrently                               *)
+(* ------------------------------------------------------------------ *)
+(* [pt_hist c] = [map_hist c] without the events HInv _ (CRange _ _) and
+   HRes _ (RRange _ _) (only Range returns RRange). *)
+Theorem C04_linearizable_with_range : forall z progs sched,
+  Forall (Forall rfrag) progs ->
+  linearizable map_spec ∅ (pt_hist (run_schedule (init_config_z [z] progs) sched)).
+Proof. exact map_linearizable_range. Qed.
+Print Assumptions C04_linearizable_with_range.
+
+Theorem C04_linearizable_with_range_contents : forall z progs sched,
+  Forall (Forall rfrag) progs ->
+  let c := run_schedule (init_config_z [z] progs) sched in
+  exists (a : gmap Z Z) (P : nat -> option (call * option res)),
+    poss map_spec ∅ (rev (pt_hist c)) a P /\
+    (forall k, a !! k = abs_lookup (st0 c) k) /\
+    (finished c = true -> forall t, P t = None).
+Proof. exact map_linearizable_range_contents. Qed.
+Print Assumptions C04_linearizable_with_range_contents.
+
+(* Non-vacuity: G0 ranges (its Range_lock / promote / unlock steps and its
+   iteration interleave with G1's calls) while G1 stores and loads. *)
+Definition linr_progs : list (list call) :=
+  [[CRange 0 (CbStop None)]; [CStore 0 1 10; CLoad 0 7; CStore 0 2 20]]%Z.
+Definition linr_sched : list (nat * Z) :=
+  repeat (1, 0%Z) 11 ++ [(0, 0%Z)] ++ repeat (1, 1%Z) 9 ++ [(0, 1%Z); (0, 1%Z)].
+
+Example C04lin_with_range :
+  let c := run_schedule (init_config 1 linr_progs) linr_sched in
+  map_hist c =
+    [HInv 1 (CStore 0 1 10); HRes 1 RUnit; HInv 1 (CLoad 0 7); HRes 1 (ROpt None);
+     HInv 0 (CRange 0 (CbStop None));
+     HInv 1 (CStore 0 2 20); HRes 1 RUnit;
+     HRes 0 (RRange [(1, 10)] 1)]%Z /\
+  pt_hist c =
+    [HInv 1 (CStore 0 1 10); HRes 1 RUnit; HInv 1 (CLoad 0 7); HRes 1 (ROpt None);
+     HInv 1 (CStore 0 2 20); HRes 1 RUnit]%Z /\
+  finished c = true /\ Forall (Forall rfrag) linr_progs.
+Proof. vm_compute. repeat split; repeat constructor. Qed.
+
+(* ------------------------------------------------------------------ *)
+(* the classic definition of Herlihy & Wing                            *)
+(* ------------------------------------------------------------------ *)
+(* [linearizable] (Lib/Lin.v, markers) implies the classic formulation, for any
+   specification (Lib/LinHW.v): there is a sequential history S of operations
+   (thread, call, result) that (a) is legal for the specification, (b) consists,
+   thread by thread in program order, of the operations of h - all completed
+   ones with the reported results ([invs t h] / [ress t h]: the calls t invokes
+   / the results it receives in h, [sel t S]: t's operations in S), plus at most
+   the pending one - and (c) respects real-time order: for every cut
+   h = h1 ++ h2, S = S1 ++ S2 where S1 contains every operation completed in h1
+   and only operations invoked in h1. So "each call takes effect at one instant
+   between its invocation and its return" is a theorem, not a reading of the
+   definition. *)
+Theorem C04_markers_imply_classic : forall (Call Res St : Type) (spec : St -> Call -> St * Res) a0 (h : list (@hevent Call Res)),
+  linearizable spec a0 h ->
+  exists (a : St) (S : list (nat * Call * Res)),
+    Lin.spec_run spec a0 (calls S) = (a, results S) /\
+    (forall t, exists l1 l2, invs t h = calls (sel t S) ++ l1 /\ results (sel t S) = ress t h ++ l2 /\
+                             length l1 + length l2 <= 1) /\
+    (forall h1 h2, h = h1 ++ h2 -> exists S1 S2, S = S1 ++ S2 /\
+       forall t, length (ress t h1) <= length (sel t S1) <= length (invs t h1)).
+Proof. exact @linearizable_classic. Qed.
+Print Assumptions C04_markers_imply_classic.
+
+(* (c) spelled out on positions: if x is an operation of S that has completed in
+   h1 and y one that is invoked after h1, x comes before y in S *)
+Theorem C04_classic_real_time : forall (Call Res : Type) (S : list (nat * Call * Res)) (h1 : list (@hevent Call Res)),
+  (exists S1 S2, S = S1 ++ S2 /\ forall t, length (ress t h1) <= length (sel t S1) <= length (invs t h1)) ->
+  forall Sa x Sb Sa' y Sb',
+    S = Sa ++ x :: Sb -> S = Sa' ++ y :: Sb' ->
+    length (sel (fst (fst x)) Sa) < length (ress (fst (fst x)) h1) ->
+    length (invs (fst (fst y)) h1) <= length (sel (fst (fst y)) Sa') ->
+    length Sa < length Sa'.
+Proof. exact @classic_rt_order. Qed.
+Print Assumptions C04_classic_real_time.
+
+(* for the runs of the machine *)
+Theorem C04_linearizable_classic : forall z progs sched,
+  Forall (Forall rfrag) progs ->
+  let h := pt_hist (run_schedule (init_config_z [z] progs) sched) in
+  exists (a : gmap Z Z) (S : list (nat * call * res)),
+    Lin.spec_run map_spec ∅ (calls S) = (a, results S) /\
+    (forall t, exists l1 l2, invs t h = calls (sel t S) ++ l1 /\ results (sel t S) = ress t h ++ l2 /\
+                             length l1 + length l2 <= 1) /\
+    (forall h1 h2, h = h1 ++ h2 -> exists S1 S2, S = S1 ++ S2 /\
+       forall t, length (ress t h1) <= length (sel t S1) <= length (invs t h1)).
+Proof. exact map_linearizable_range_classic. Qed.
+Print Assumptions C04_linearizable_classic.
+
+(* Non-vacuity: the history of C04lin_stale_load and the sequential history
+   that places G0's Load(1) between G1's Delete(1) and Store(1,30): legal,
+   thread by thread the operations of the history, and e.g. for the cut after
+   Delete(1)'s response: S1 = the three operations completed by then (Load(1),
+   invoked but not completed, may go either side). *)
+Example C04lin_classic_example :
+  let h := [HInv 1 (CStore 0 1 10); HRes 1 RUnit; HInv 1 (CLoad 0 7); HRes 1 (ROpt None);
+            HInv 0 (CLoad 0 1);
+            HInv 1 (CDelete 0 1); HRes 1 RUnit; HInv 1 (CStore 0 2 20); HRes 1 RUnit;
+            HInv 1 (CLoad 0 7); HRes 1 (ROpt None); HInv 1 (CStore 0 1 30); HRes 1 RUnit;
+            HRes 0 (ROpt None)]%Z in
+  let S1 : list (nat * call * res) := [(1, CStore 0 1 10, RUnit); (1, CLoad 0 7, ROpt None); (1, CDelete 0 1, RUnit)] in
+  let S2 : list (nat * call * res) := [(0, CLoad 0 1, ROpt None); (1, CStore 0 2 20, RUnit); (1, CLoad 0 7, ROpt None); (1, CStore 0 1 30, RUnit)] in
+  let S := S1 ++ S2 in
+  snd (Lin.spec_run map_spec ∅ (calls S)) = results S /\
+  (invs 0 h = calls (sel 0 S) /\ results (sel 0 S) = ress 0 h) /\
+  (invs 1 h = calls (sel 1 S) /\ results (sel 1 S) = ress 1 h) /\
+  (forall t, length (ress t (firstn 7 h)) <= length (sel t S1) <= length (invs t (firstn 7 h))).
+Proof.
+  cbv zeta. split; [vm_compute; reflexivity|]. split; [vm_compute; auto|]. split; [vm_compute; auto|].
+  intros t. cbn [firstn invs ress sel fst]. destruct (Nat.eq_dec 1 t), (Nat.eq_dec 0 t); cbn; lia.
+Qed.
+
+(* ------------------------------------------------------------------ *)
+(* the big-step and the small-step model agree on single-goroutine runs *)
+(* ------------------------------------------------------------------ *)
+(* The sequential theorems (Props/C04.v) are about the big-step model Seq.v
+   (one Coq function per method), the concurrent ones about the small-step
+   machine Model.v. Both are tied to the real code by the harness; this ties
+   them to each other in Coq (SyncMap/Solo.v): the small-step machine run with
+   ONE goroutine p (Load / Store / LoadOrStore / LoadAndDelete / Delete), under
+   any schedule (any iteration choices in the dirtyLocked loop), returns once
+   finished the results the big-step functions return call by call from the
+   zero Map ([run_seq], [sop_of] / [sres_of] translate calls / results), and
+   ends with the same abstract contents. (Results and contents, not the
+   internal layout read / dirty / misses.) *)
+Theorem C04_solo_is_bigstep : forall z p sched,
+  Forall lin_frag p ->
+  let c := run_schedule (init_config_z [z] [p]) sched in
+  finished c = true ->
+  exists th s outs, nth_error (c_threads c) 0 = Some th /\
+    run_seq (map sop_of p) empty_mstate = Ok (s, outs) /\ SeqProofs.WF s /\
+    map sres_of (t_results th) = outs /\
+    forall k, abs_lookup (st0 c) k = abs_lookup s k.
+Proof. exact solo_is_bigstep. Qed.
+Print Assumptions C04_solo_is_bigstep.
+
+(* ... both return what an ordinary map returns *)
+Theorem C04_solo_spec : forall z p sched,
+  Forall lin_frag p ->
+  let c := run_schedule (init_config_z [z] [p]) sched in
+  finished c = true ->
+  exists th (a : gmap Z Z), nth_error (c_threads c) 0 = Some th /\
+    Lin.spec_run map_spec ∅ p = (a, t_results th) /\ forall k, a !! k = abs_lookup (st0 c) k.
+Proof. exact solo_spec. Qed.
+Print Assumptions C04_solo_spec.
+
+Definition solo_prog : list call :=
+  [CStore 0 1 10; CLoad 0 1; CStore 0 2 20; CDelete 0 1; CLoadOrStore 0 2 5 PNone; CLoadOrStore 0 3 7 PNone; CLoadAndDelete 0 1]%Z.
+Example C04_solo_example :
+  let c := run_schedule (init_config 1 [solo_prog]) (repeat (0, 1%Z) 80) in
+  finished c = true /\ Forall lin_frag solo_prog /\
+  map t_results (c_threads c) = [[RUnit; ROpt (Some 10); RUnit; RUnit; RLos 20 true; RLos 7 false; ROpt None]]%Z.
 Proof. vm_compute. repeat split; repeat constructor. Qed.
